@@ -1,5 +1,5 @@
 (** * DemesUnits: slicing and ancient-sample augmentation commute with rescaling; time units; rescaling of the whole
-    importer (with ancient samples). *)
+    importer (with ancient samples); slicing preserves every deme's size function and every migration rate on [t, inf). *)
 From Coq Require Import ZArith Reals List Bool Arith Lra Lia.
 From Dadi Require Import Base.Num Base.NumR Model.DemesFront Proofs.DemesBase Proofs.DemesRescale.
 Import ListNotations.
@@ -280,4 +280,155 @@ Proof.
     destruct (augment g sampled (times_of g sampled times) new_ids sizes) as [[g1 s1] f1]. cbn [fst] in W.
     apply K; tauto.
   - apply K; auto.
+Qed.
+(** ** slicing preserves every deme's size function on [t, inf), shifted by t *)
+
+(** a deme's epochs as `demes` resolves them: contiguous from the deme's start time, each of positive duration, an epoch
+    reaching infinitely far back is constant, start sizes are not zero *)
+Definition tlt (a b : timeR) : Prop := tleb b a = false.
+Fixpoint epochs_chain (ts : timeR) (es : list (epoch R)) : Prop :=
+  match es with
+  | [] => True
+  | e :: es' => e_start e = ts /\ tlt (Fin (e_end e)) ts /\ (ts = Inf -> e_fn e = SConstant) /\ e_s0 e <> 0
+                /\ epochs_chain (Fin (e_end e)) es'
+  end.
+Definition deme_wf (d : deme R) : Prop := epochs_chain (d_start d) (d_epochs d).
+
+Lemma size_at_shift t u s0 s1 ts te fn : (ts = Inf -> fn = SConstant) ->
+  size_at u s0 s1 (tshift t ts) (te - t) fn = size_at (u + t) s0 s1 ts te fn.
+Proof.
+  intros Hinf. unfold size_at. destruct ts as [x|].
+  - cbn [tshift tval]. numR. destruct fn; auto.
+    + replace (x - t - u) with (x - (u + t)) by ring. replace (x - t - (te - t)) with (x - te) by ring. reflexivity.
+    + replace (x - t - u) with (x - (u + t)) by ring. replace (x - t - (te - t)) with (x - te) by ring. reflexivity.
+  - rewrite Hinf by auto. reflexivity.
+Qed.
+
+(** the epoch cut by the slice: it ends at 0 with the size the deme had at the slice time *)
+Lemma size_at_cut t u s0 s1 x te fn : s0 <> 0 -> te < x -> t < x ->
+  size_at u s0 (size_at t s0 s1 (Fin x) te fn) (Fin (x - t)) 0 fn = size_at (u + t) s0 s1 (Fin x) te fn.
+Proof.
+  intros Hs Hte Ht. unfold size_at. cbn [tval]. numR. destruct fn; auto.
+  - replace (s0 * exp (ln (s1 / s0) * (x - t) / (x - te)) / s0) with (exp (ln (s1 / s0) * (x - t) / (x - te)))
+      by (field; auto).
+    rewrite ln_exp. f_equal. f_equal. field. split; lra.
+  - field. split; lra.
+Qed.
+
+Lemma epochs_after_none es : forall ts u, epochs_chain ts es -> tleb ts (Fin u) = true -> epochs_size_at es u = None.
+Proof.
+  induction es as [|e es IH]; intros ts u Hc Hle; cbn [epochs_size_at]; auto.
+  destruct Hc as (Hs & Hlt & _ & _ & Hc). unfold epoch_has. rewrite Hs, Hle. cbn [negb]. rewrite andb_false_r.
+  apply (IH (Fin (e_end e))); auto. unfold tlt in Hlt. destruct ts as [x|]; cbn in *; numR.
+  - apply Rleb_true. apply Rleb_false in Hlt. apply Rleb_true in Hle. lra.
+  - discriminate.
+Qed.
+
+Lemma shift_epochs_size_at t : 0 < t -> forall es ts u, epochs_chain ts es -> tlt (Fin t) ts -> 0 <= u ->
+  epochs_size_at (shift_epochs t es) u = epochs_size_at es (u + t).
+Proof.
+  intros Ht. induction es as [|e es IH]; intros ts u Hc Hts Hu; auto.
+  destruct Hc as (Hs & Hlt & Hinf & Hs0 & Hc). cbn [shift_epochs epochs_size_at].
+  unfold clip0. numR.
+  destruct (Rleb (e_end e - t) 0) eqn:Ecut.
+  - (* the epoch that reaches the slice time *)
+    replace (Reqb 0 0) with true by (symmetry; now apply Reqb_true).
+    apply Rleb_true in Ecut. cbn [epochs_size_at]. unfold epoch_has. cbn [e_start e_end]. numR.
+    replace (Rleb 0 u) with true by (symmetry; now apply Rleb_true).
+    replace (Rleb (e_end e) (u + t)) with true by (symmetry; apply Rleb_true; lra).
+    cbn [andb]. rewrite Hs in *. destruct ts as [x|].
+    + cbn [tshift tleb]. numR.
+      replace (Rleb (x - t) u) with (Rleb x (u + t)).
+      2:{ destruct (Rleb x (u + t)) eqn:E; symmetry.
+          - apply Rleb_true in E. apply Rleb_true. lra.
+          - apply Rleb_false in E. apply Rleb_false. lra. }
+      destruct (Rleb x (u + t)) eqn:E; cbn [negb].
+      * symmetry. apply (epochs_after_none es (Fin (e_end e))); auto. cbn. numR. apply Rleb_true.
+        apply Rleb_true in E. unfold tlt in Hlt. cbn in Hlt. numR. apply Rleb_false in Hlt. lra.
+      * f_equal. unfold epoch_size_at. cbn [e_start e_end e_s0 e_s1 e_fn]. rewrite Hs.
+        unfold tlt in Hlt, Hts. cbn in Hlt, Hts. numR. apply Rleb_false in Hlt, Hts.
+        apply size_at_cut; auto.
+    + cbn [tshift tleb negb]. f_equal. unfold epoch_size_at. cbn [e_start e_end e_s0 e_s1 e_fn]. rewrite Hs.
+      rewrite Hinf by auto. reflexivity.
+  - apply Rleb_false in Ecut.
+    replace (Reqb (e_end e - t) 0) with false by (symmetry; apply Reqb_false; lra).
+    cbn [epochs_size_at]. unfold epoch_has. cbn [e_start e_end]. numR.
+    replace (Rleb (e_end e - t) u) with (Rleb (e_end e) (u + t)).
+    2:{ destruct (Rleb (e_end e) (u + t)) eqn:E; symmetry.
+        - apply Rleb_true in E. apply Rleb_true. lra.
+        - apply Rleb_false in E. apply Rleb_false. lra. }
+    replace (tleb (tshift t (e_start e)) (Fin u)) with (tleb (e_start e) (Fin (u + t))).
+    2:{ destruct (e_start e) as [x|]; cbn [tshift tleb]; auto. numR.
+        destruct (Rleb x (u + t)) eqn:E; symmetry.
+        - apply Rleb_true in E. apply Rleb_true. lra.
+        - apply Rleb_false in E. apply Rleb_false. lra. }
+    destruct (Rleb (e_end e) (u + t) && negb (tleb (e_start e) (Fin (u + t)))).
+    + f_equal. unfold epoch_size_at. cbn [e_start e_end e_s0 e_s1 e_fn]. apply size_at_shift.
+      intros K. apply Hinf. now rewrite <- Hs.
+    + apply (IH (Fin (e_end e))); auto. unfold tlt. cbn. numR. apply Rleb_false. lra.
+Qed.
+
+(** the deme [d] after slicing at [t] *)
+Definition slice_deme (t : R) (d : deme R) : deme R :=
+  mkDeme (d_id d) (tshift t (d_start d)) (d_anc d) (shift_epochs t (d_epochs d)).
+
+Theorem slice_preserves_size_functions : forall (g : graph R) t d, 0 < t ->
+  In d (g_demes g) -> deme_wf d -> tlt (Fin t) (d_start d) ->
+  In (slice_deme t d) (g_demes (slice g t))
+  /\ forall u, 0 <= u -> deme_size_at (slice_deme t d) u = deme_size_at d (u + t).
+Proof.
+  intros g t d Ht Hd Hw Hs. split.
+  - unfold slice. numR. replace (Reqb t 0) with false by (symmetry; apply Reqb_false; lra).
+    cbn [g_demes]. apply in_flat_map. exists d. split; auto. unfold tlt in Hs. rewrite Hs. now left.
+  - intros u Hu. unfold deme_size_at, slice_deme. cbn [d_epochs]. eapply shift_epochs_size_at; eauto.
+Qed.
+
+(** only those demes survive *)
+Theorem slice_demes_are_shifted : forall (g : graph R) t d', 0 < t -> In d' (g_demes (slice g t)) ->
+  exists d, In d (g_demes g) /\ tlt (Fin t) (d_start d) /\ d' = slice_deme t d.
+Proof.
+  intros g t d' Ht H. unfold slice in H. numR. replace (Reqb t 0) with false in H by (symmetry; apply Reqb_false; lra).
+  cbn [g_demes] in H. apply in_flat_map in H as (d & Hd & H). destruct (tleb (d_start d) (Fin t)) eqn:E; [contradiction|].
+  destruct H as [<-|[]]. exists d. auto.
+Qed.
+
+(** the source variant that interpolates with the already shifted and clamped end time (0 instead of the epoch's own
+    end) does not: a linear epoch from size 1 at time 4 to size 3 at time 2, sliced at 3, has size 2 there, not 3/2 *)
+Lemma size_at_clamped_end_refuted : exists t s0 s1 x te, 0 < te <= t /\ t < x /\
+  size_at t s0 s1 (Fin x) 0 SLinear <> size_at t s0 s1 (Fin x) te SLinear.
+Proof.
+  exists 3, 1, 3, 4, 2. split; [lra|]. split; [lra|]. unfold size_at. cbn [tval]. numR. lra.
+Qed.
+
+(** ... and the migration rate in force between any two demes at any time *)
+Lemma fold_left_flat_map {A B C} (f : A -> B -> A) (h : C -> list B) l : forall a,
+  fold_left f (flat_map h l) a = fold_left (fun a x => fold_left f (h x) a) l a.
+Proof. induction l as [|x l IH]; intros a; cbn [flat_map fold_left]; auto. now rewrite fold_left_app, IH. Qed.
+Lemma fold_left_ext' {A B} (f g : A -> B -> A) l : (forall a x, f a x = g a x) -> forall a, fold_left f l a = fold_left g l a.
+Proof. intros E. induction l as [|x l IH]; intros a; cbn [fold_left]; auto. now rewrite E, IH. Qed.
+
+Theorem slice_preserves_migration_rates : forall (g : graph R) t src dst u, 0 < t -> 0 <= u ->
+  mig_rate_at (slice g t) src dst u = mig_rate_at g src dst (u + t).
+Proof.
+  intros g t src dst u Ht Hu. unfold mig_rate_at, slice. numR.
+  replace (Reqb t 0) with false by (symmetry; apply Reqb_false; lra). cbn [g_migs].
+  rewrite fold_left_flat_map. apply fold_left_ext'. intros r m.
+  destruct (tleb (m_start m) (Fin t)) eqn:Es.
+  - cbn [fold_left].
+    replace (tleb (m_start m) (Fin (u + t))) with true; [now rewrite andb_false_r|].
+    symmetry. destruct (m_start m) as [x|]; cbn [tleb] in *; [|discriminate]. numR.
+    apply Rleb_true in Es. apply Rleb_true. lra.
+  - cbn [fold_left m_src m_dst m_start m_end m_rate].
+    replace (Rleb (clip0 (m_end m - t)) u) with (Rleb (m_end m) (u + t)).
+    2:{ unfold clip0. numR. destruct (Rleb (m_end m - t) 0) eqn:E1.
+        - apply Rleb_true in E1. replace (Rleb 0 u) with true by (symmetry; now apply Rleb_true).
+          apply Rleb_true. lra.
+        - apply Rleb_false in E1. destruct (Rleb (m_end m) (u + t)) eqn:E; symmetry.
+          + apply Rleb_true in E. apply Rleb_true. lra.
+          + apply Rleb_false in E. apply Rleb_false. lra. }
+    replace (tleb (tshift t (m_start m)) (Fin u)) with (tleb (m_start m) (Fin (u + t))); auto.
+    destruct (m_start m) as [x|]; cbn [tshift tleb]; auto. numR.
+    destruct (Rleb x (u + t)) eqn:E; symmetry.
+    + apply Rleb_true in E. apply Rleb_true. lra.
+    + apply Rleb_false in E. apply Rleb_false. lra.
 Qed.
